@@ -191,6 +191,7 @@ def strata():
         gen_cfg.model_and_spec(force=['many_ports', 'inout_mix'], want_mixed=True, req_form='sts+rem'),
         gen_cfg.model_and_spec(want_mc=True, force=['many_ports'], want_mixed=True),
         gen_cfg.model_and_spec(force=['many_provides']),
+        gen_cfg.model_and_spec(force=['big'], want_mixed='SMM', prov_sem='MTS'),
         # one-way interfaces: ports without any inbound event, all of them multi-threaded
         gen_cfg.model_and_spec(force=['one_way_itf', 'many_ports'], prov_sem='MTS', want_mixed='M'),
         gen_cfg.model_and_spec(force=['one_way_itf'], prov_sem='MTS', want_mixed='MS'),
